@@ -402,7 +402,17 @@ func driveEnc(args []string) error {
 					}
 					bprog[0] = rb
 				}
-				h := append(append([]Call{}, a...), bprog...)
+				h := append([]Call{}, a...)
+				if i%7 == 3 {
+					// third use (round 10): another whole program between A and B, sometimes read out in between
+					mid := genProgram(rng, &progOpts{maxPaths: 2, maxRun: 4, arcs: true, meta: i%2 == 1, hires: i%3 == 0, gradients: true, selreads: true})
+					h = append(h, mid...)
+					if i%2 == 0 {
+						h = append(h, mkCall("Bytes"))
+					}
+					stats["reuse.third_use"]++
+				}
+				h = append(h, bprog...)
 				var e encode.Encoder
 				w := enc.Next()
 				w.Emit(encStart{Ev: "start", ID: fmt.Sprintf("reuse/%d", i), Cmp: cmpv})
